@@ -543,8 +543,19 @@ where
 			change, num_change_outputs
 		);
 
+		if num_change_outputs == 0 {
+			return Err(Error::GenericError(
+				"Change is required but the number of change outputs is zero".to_owned(),
+			));
+		}
 		let part_change = change / num_change_outputs as u64;
-		let remainder_change = change % part_change;
+		if part_change == 0 {
+			return Err(Error::GenericError(format!(
+				"Change amount {} is too small to split into {} outputs",
+				change, num_change_outputs
+			)));
+		}
+		let remainder_change = change - part_change * num_change_outputs as u64;
 
 		for x in 0..num_change_outputs {
 			// n-1 equal change_outputs and a final one accounting for any remainder
